@@ -259,6 +259,9 @@ func namedOfField(p *Prog, f *types.Var) *types.Named {
 func (p *Prog) LocksetCached() *Lockset {
 	if p.ls == nil {
 		p.ls = p.lockset()
+	}
+	if !p.ls.collected {
+		p.ls.collected = true
 		p.ls.collectAccesses()
 	}
 	return p.ls
